@@ -5,7 +5,7 @@
  *
  * usage: h_c13_bp <output file> < sessions
  * One session per input line, tokens separated by blanks (sizes in units of 1 KiB, block size = 4 units):
- *     B<i><d>          sqfs_block_processor_begin_file, i: with inode, d: SQFS_BLK_DONT_FRAGMENT
+ *     B<i><d>[<n>]     sqfs_block_processor_begin_file, i: with inode, d: SQFS_BLK_DONT_FRAGMENT, n: SQFS_BLK_DONT_DEDUPLICATE
  *     A<n>:<c>         sqfs_block_processor_append of n units of content class c:
  *                        z all zero | u unique bytes | s shared bytes (same for every `s` chunk of equal size)
  *     E                end_file        S  sync        F  finish
@@ -129,7 +129,8 @@ int main(int argc, char **argv)
 					return 2;
 				inodes[ninodes] = NULL;
 				ret = sqfs_block_processor_begin_file(proc, tok[1] == '1' ? &inodes[ninodes] : NULL, NULL,
-								      tok[2] == '1' ? SQFS_BLK_DONT_FRAGMENT : 0);
+								      (tok[2] == '1' ? SQFS_BLK_DONT_FRAGMENT : 0) |
+								      (tok[2] != '\0' && tok[3] == '1' ? SQFS_BLK_DONT_DEDUPLICATE : 0));
 				ninodes += 1;
 				break;
 			case 'A': {
